@@ -953,9 +953,14 @@ impl Model {
         let decoded: Option<Pkt> = ver_before.and_then(|v| rc::decode(frame, v, self.idw).ok());
         // X3: delivered, answered as duplicate, or reported
         s.hit("X3-frame-delivered-answered-or-reported");
-        let dup_answer = match &decoded {
-            Some(Pkt::Publish { qos: 2, id: Some(i), .. }) => self.handled.contains(i) && evs.iter().any(|e| matches!(e, Ev::Send { pkt: Pkt::Ack { kind: AckKind::Pubrec, id, .. }, .. } if id == i)),
-            _ => false,
+        let dup_id = match &decoded {
+            Some(Pkt::Publish { qos: 2, id: Some(i), .. }) => Some(*i),
+            Some(_) => None,
+            None => peek_qos2_publish_id(frame, self.idw),
+        };
+        let dup_answer = match dup_id {
+            Some(i) => self.handled.contains(&i) && evs.iter().any(|e| matches!(e, Ev::Send { pkt: Pkt::Ack { kind: AckKind::Pubrec, id, .. }, .. } if *id == i)),
+            None => false,
         };
         if recv.is_none() && !has_err && !dup_answer {
             let peek = peek_qos2_publish_id(frame, self.idw);
@@ -1073,6 +1078,8 @@ impl Model {
                         s.hit("AL6-inbound-alias-in-range-and-bound");
                         if a == 0 || a > self.tam_local {
                             s.fail("C13", "AL6-inbound-alias-in-range-and-bound", "why=out-of-range".into(), format!("{} delivered with Topic Alias {} although the locally announced Topic Alias Maximum is {}", pkt.short(), a, self.tam_local));
+                        } else if extracted && self.bind_in_unknown {
+                            // table not predictable on this connection (see above): not judged
                         } else if extracted {
                             if !self.bind_in_unknown {
                                 s.hit("AL5-inbound-alias-resolves-to-bound-topic");
@@ -1160,9 +1167,13 @@ impl Model {
                         if status_at_frame == St::Cd && !has_err && !dup_answer {
                             s.fail("C07", "Q4-duplicate-answered-with-pubrec", String::new(), format!("duplicate QoS 2 PUBLISH id {} neither answered with PUBREC nor reported: {}", i, evs_short(evs)));
                         }
-                        if !has_err {
-                            if let Some(a) = props.iter().find_map(|p| if let (P_TA, PVal::U16(a)) = (p.id, &p.val) { Some(*a) } else { None }) {
-                                if !topic.is_empty() && a >= 1 && a <= self.tam_local {
+                        if let Some(a) = props.iter().find_map(|p| if let (P_TA, PVal::U16(a)) = (p.id, &p.val) { Some(*a) } else { None }) {
+                            if !topic.is_empty() && a >= 1 && a <= self.tam_local {
+                                if has_err {
+                                    // an error next to a suppressed duplicate may be a rejection of the frame or a
+                                    // failed automatic response: the receive-side table can no longer be predicted
+                                    self.bind_in_unknown = true;
+                                } else {
                                     self.bind_in.insert(a, topic.clone());
                                 }
                             }
